@@ -599,7 +599,9 @@ func judge(cs Case, o outcome) (vs []verdict, phases map[string]bool, sig string
 		frames := vkit.StuckInAgent(o.Stuck)
 		bo := []string{}
 		for _, f := range frames {
-			if strings.HasPrefix(f, "output/baseoutput") {
+			// (the goroutine that opens a connection in the background may stay parked after a stop during the dial: the code
+			// deliberately ignores it, and it holds no chunk)
+			if strings.HasPrefix(f, "output/baseoutput") && !strings.Contains(f, "runSession.func1") {
 				bo = append(bo, f)
 			}
 		}
